@@ -1,5 +1,6 @@
 import VlsModel.Lemmas.Bolt3
 import VlsModel.Lemmas.Bolt3Bytes
+import VlsModel.Model.Bolt3Htlc
 /-
 C04 — Commitment signatures bind to the BOLT-3 transaction of the validated content.
 
@@ -247,6 +248,46 @@ theorem C04_htlc_sigs_canon (env : Env) (s : Setup) (k : Keys) (c : Content) (si
     rw [hj, heq]
     rfl
 
+omit [DecidableEq H] in
+/-- **C04_htlc_raw_signs_recomposed.**  The raw second-stage entry point (`sign_counterparty_htlc_tx`): whatever it
+    signs is the BIP143 sighash of the BOLT-3 second-stage transaction *recomposed* from the content of the request
+    (spent outpoint, cltv of an offered HTLC, value) with version 2, the type's sequence, locktime 0 for a received
+    HTLC and a single output to the to_local script with the negotiated delay — and the supplied transaction has that
+    very sighash.  No policy-filter parameter occurs in the statement: the refusal of a mismatch is unconditional. -/
+theorem C04_htlc_raw_signs_recomposed {M' S' : Type} [DecidableEq M'] (crh : HtlcCrypto H M' S')
+    (polOk : Nat → Bool → Nat → Bool) (htlcKey : Key) (s : Setup) (k : Keys)
+    (tx : StageTx H) (redeem : Script) (amount : Nat) (sig : S')
+    (h : htlcRaw wsh crh polOk htlcKey s k tx redeem amount = .ok sig) :
+    ∃ offered i v,
+      redeemSide s redeem = some offered ∧ tx.inputs.head? = some i ∧
+      (∃ o, tx.outputs.head? = some o ∧ o.value ≤ amount ∧
+        htlcTxValue s (htlcRate s offered (amount - o.value)) offered ⟨amount, 0, stageCltv offered tx.locktime⟩ = some v) ∧
+      crh.sighash tx redeem amount s.ctype.isAnchors
+        = crh.sighash (recomposeStage wsh s k i offered tx.locktime v) redeem amount s.ctype.isAnchors ∧
+      sig = crh.sign htlcKey (crh.sighash (recomposeStage wsh s k i offered tx.locktime v) redeem amount s.ctype.isAnchors) := by
+  unfold htlcRaw at h
+  simp only at h
+  split at h
+  · cases h
+  rename_i offered hside
+  split at h
+  · rename_i i _ o _ hin hout
+    split at h
+    · cases h
+    rename_i hfee
+    split at h
+    · cases h
+    rename_i v hv
+    split at h
+    · cases h
+    rename_i heq
+    split at h
+    · cases h
+    injection h with h
+    refine ⟨offered, i, v, hside, by simp [hin], ⟨o, by simp [hout], by omega, hv⟩, ?_, h.symm⟩
+    exact (Decidable.of_not_not heq).symm
+  · cases h
+
 /-- **C04_restart_same_sig.**  A restart does not change what is signed: persisting a channel and
     restoring it (`Node::new_from_persistence`: stored `ChannelSetup` + stored `channel_value_satoshis`)
     is the identity on the setup, so both entry points return, before and after a restart, the same
@@ -260,6 +301,18 @@ theorem C04_restart_same_sig (env : Env) (s : Setup) (k : Keys) (c : Content)
       = phase1 wsh okey cr env s k tx ws commitNum feerate offered received := by
   have h : restoreChannel (persistChannel s) = s := rfl
   exact ⟨h, by rw [h], by rw [h]⟩
+
+/-- **C04_resetup_keeps_setup.**  A second `setup_channel` on a ready channel is acknowledged only if it is identical
+    to the setup the channel has (every field, the funding outpoint included), and whether acknowledged or refused
+    the channel goes on signing for the setup it had: an acknowledged setup is always the one signatures bind to. -/
+theorem C04_resetup_keeps_setup (cur new s' : Setup) (h : resetupReady cur new = .ok s') :
+    new = cur ∧ s' = cur := by
+  unfold resetupReady at h
+  split at h
+  · cases h
+  · rename_i hne
+    injection h with h
+    exact ⟨(Decidable.of_not_not hne).symm, h.symm⟩
 
 /-- What a restore with the wrong amount would do (the shape of a seeded defect): the commitment
     signature of phase 2 commits to that amount instead of the negotiated channel value. -/
@@ -412,6 +465,17 @@ example : (match canon wId kZero (setupOf .staticRemoteKey) keysX contentX with
              !isOk (phase1 wId kZero crX envOk (setupOf .staticRemoteKey) keysX tx' ws' 23 1000
                       contentX.offered contentX.received)
            | none => false) = true := by decide
+
+/-- non-vacuity of `C04_htlc_raw_signs_recomposed`: the raw second-stage entry point accepts the BOLT-3 HTLC-timeout
+    transaction of a 4000 sat offered HTLC (fee 663 sat) and refuses the same transaction with sequence 1 -/
+def crH : HtlcCrypto Script (StageTx Script × Script × Nat × Bool) (Key × StageTx Script × Script × Nat × Bool) :=
+  ⟨fun t r a f => (t, r, a, f), fun k m => (k, m)⟩
+def stageX : StageTx Script :=
+  recomposeStage wId (setupOf .staticRemoteKey) keysX ⟨77, 0, 0, 0, 0⟩ true 131072 (4000 - 663)
+example : isOk (htlcRaw wId crH (fun _ _ _ => true) 101 (setupOf .staticRemoteKey) keysX stageX
+    (.htlcOffered false 1 4 3 1 20) 4000) = true := by decide
+example : isOk (htlcRaw wId crH (fun _ _ _ => true) 101 (setupOf .staticRemoteKey) keysX
+    { stageX with inputs := [⟨77, 0, 1, 0, 0⟩] } (.htlcOffered false 1 4 3 1 20) 4000) = false := by decide
 
 end witness
 
